@@ -65,7 +65,7 @@ plan("C03", "exploration",
      "and restart on the surviving directory image, plus clean restarts; distinct = distinct (history, schedule, crash placement) signature; non-trivial = "
      "at least one crash happened or one signature was released. Oracles: ledger across incarnations (no conflicting pair ever released), export after every "
      "restart covers every released signature, at the instant Sign is invoked the live store and (sampled) a fresh process opening the directory already "
-     "cover the duty, the directory as copied at the instant a storage call returns already holds what was acknowledged, SyncWrites is on.",
+     "cover the duty, the directory as copied at the instant a storage call returns already holds what was acknowledged; layers 2 and 3 add real SIGKILLs at every storage point and power-loss images from a syscall trace.",
      q, t)
 
 BATCH_RULE = ("one case = one seeded run of 1-3 rounds, each a request of drawn kind and size (1-40 mostly, up to {big} entries over distinct keys of a 520-account wallet) "
